@@ -6,7 +6,7 @@
     kind 4  ERC20DirectBalanceManipulation (transfer sends half to a thief)
     kind 5  AdvToken, the hand-assembled configurable token of harness/cmd/c11/advtoken.go:
             storage slot(address) = balance; slots 0..9 = totalSupply, senderFee, receiverFee, retMode, logMode,
-            balMode, lie, lieAddr, lieStep, fakeCredit.  All arithmetic wraps modulo 2^256 like the EVM's. *)
+            balMode (3: balanceOf reverts for lieAddr only), lie, lieAddr, lieStep, fakeCredit.  All arithmetic wraps modulo 2^256 like the EVM's. *)
 From Teleport Require Import Base.Bytes Base.Outcome Model.Convert.
 Local Open Scope Z_scope.
 
@@ -30,7 +30,8 @@ Definition delayed_call (owner : Z) (t : std_token) (caller : Z) (cl : call) : s
   | CTransfer _ _ =>
       let '(t', r) := std_call owner t caller cl in
       if cr_ok r then (t', cok (Some 1) [LApproval; LOther]) else (t, cfail)
-  | _ => std_call owner t caller cl
+  | CBalanceOf _ | CMint _ _ | CBurn _ => std_call owner t caller cl
+  | _ => (t, cfail)          (* allowance functions of the malicious contracts: not modelled, never exercised *)
   end.
 
 Definition manip_call (owner : Z) (t : std_token) (caller : Z) (cl : call) : std_token * cres :=
@@ -43,7 +44,8 @@ Definition manip_call (owner : Z) (t : std_token) (caller : Z) (cl : call) : std
       if negb (cr_ok r1) then (t, cfail) else
       let '(t2, r2) := std_call owner t1 caller (CTransfer to half) in
       if negb (cr_ok r2) then (t, cfail) else (t2, cok (Some 1) [LOther; LOther])
-  | _ => std_call owner t caller cl
+  | CBalanceOf _ | CMint _ _ | CBurn _ => std_call owner t caller cl
+  | _ => (t, cfail)
   end.
 
 Definition adv_call (st : zmap) (caller : Z) (cl : call) : zmap * cres :=
@@ -52,6 +54,7 @@ Definition adv_call (st : zmap) (caller : Z) (cl : call) : zmap * cres :=
       let mode := zget st 5 in
       if mode =? 1 then (st, cfail)
       else if mode =? 2 then (st, cok None [])
+      else if (mode =? 3) && (a =? zget st 7) then (st, cfail)
       else
         let bal := zget st a in
         if a =? zget st 7
@@ -104,3 +107,49 @@ Definition xcall0 (x : xstate) (c caller : Z) (cl : call) : xstate * cres :=
 
 Definition xcontract0 (x : xstate) (c : Z) : bool :=
   match afind Z.eqb x c with Some t => et_alive t | None => false end.
+
+(** * A plain ERC-20 (balanceOf / transfer only, OpenZeppelin ERC20 without mint or burn entry points): the instance
+    of the oracle used to show that the hypotheses of the voucher-backing theorem are satisfiable
+    (Props/C11.v, Proofs/ConvertPlain.v). *)
+Definition pstate := list (Z * zmap).      (* contract -> balances *)
+
+Definition plain_call (x : pstate) (c caller : Z) (cl : call) : pstate * cres :=
+  match afind Z.eqb x c with
+  | None => (x, cfail)
+  | Some bal =>
+      match cl with
+      | CBalanceOf a => (x, cok (Some (zget bal a)) [])
+      | CTransfer to amt =>
+          if (amt <? 0) || (caller =? 0) || (to =? 0) || (zget bal caller <? amt) then (x, cfail)
+          else let b1 := zset bal caller (zget bal caller - amt) in
+               (aset x c (zset b1 to (zget b1 to + amt)), cok (Some 1) [LOther])
+      | _ => (x, cfail)
+      end
+  end.
+
+Definition plain_contract (x : pstate) (c : Z) : bool :=
+  match afind Z.eqb x c with Some _ => true | None => false end.
+
+Definition plain_ledger (x : pstate) (c h : Z) : Z :=
+  match afind Z.eqb x c with Some bal => zget bal h | None => 0 end.
+
+(** * ERC20MinterBurnerDecimals deployed by a USER and registered as an external pair: balanceOf is an honest view,
+    but the deployer holds BURNER_ROLE and can burn anybody's tokens, the module's escrow included
+    (Refuted/C11_refuted.v: [others_cannot_debit] is necessary). *)
+Definition ustate := list (Z * std_token).
+
+Definition user_std_call (owner : Z) (x : ustate) (c caller : Z) (cl : call) : ustate * cres :=
+  match afind Z.eqb x c with
+  | None => (x, cfail)
+  | Some t =>
+      match cl with
+      | CBalanceOf a => (x, cok (Some (zget (st_bal t) a)) [])
+      | _ => let '(t', r) := std_call owner t caller cl in if cr_ok r then (aset x c t', r) else (x, cfail)
+      end
+  end.
+
+Definition user_std_contract (x : ustate) (c : Z) : bool :=
+  match afind Z.eqb x c with Some _ => true | None => false end.
+
+Definition user_std_ledger (x : ustate) (c h : Z) : Z :=
+  match afind Z.eqb x c with Some t => zget (st_bal t) h | None => 0 end.
